@@ -25,6 +25,10 @@ impl VerifTy for TypeLayout { #[verifier::external_body] fn get_type_recursively
 // type stand for its payload (`int?` where `int` is expected) -- a returned value must fit WITHOUT that: a `T?` may be nil
 pub uninterp spec fn ret_fits(expected: TypeLayout, supplied: TypeLayout, n: &Node, unwrap_supplied_optional: bool) -> bool;
 #[verifier::external_body] pub fn ret_eq_complex(expected: &TypeLayout, supplied: &TypeLayout, n: &Node, unwrap_supplied_optional: bool) -> (r: bool) ensures r == ret_fits(*expected, *supplied, n, unwrap_supplied_optional) { unimplemented!() }
+// the type admits nil (TypeLayout::is_optional().0, wrappers of captured variables looked through)
+pub uninterp spec fn may_be_nil(t: TypeLayout) -> bool;
+pub trait VerifOpt { fn is_optional(&self) -> (bool, Option<&TypeLayout>); }
+impl VerifOpt for TypeLayout { #[verifier::external_body] fn is_optional(&self) -> (r: (bool, Option<&TypeLayout>)) ensures r.0 == may_be_nil(*self) { unimplemented!() } }
 pub struct ReturnStatement(pub Option<Value>);
 pub fn first_child(n: &Node) -> (r: Option<Node>) ensures node_children(n).len() == 0 ==> r is None, node_children(n).len() > 0 ==> r == Some(node_children(n)[0]) { let mut c = children(n); c.next() }
 """
@@ -56,30 +60,21 @@ pub fn return_statement(input: Node, ud: &mut UD) -> (r: Result<ReturnStatement,
         (node_children(&input).len() == 0 && expected_return(&input) is None) ==> r is Ok && r->Ok_0.0 is None,
         (node_children(&input).len() > 0 && expected_return(&input) is None) ==> r is Err,
         // wants a value, gets one: accepted only if its type passed the compatibility test against the declared return type (under either reading
-        // of the optional-unwrapping flag; the strict reading is obligation C03.return.strict)
+        // of the optional-unwrapping flag of the comparison)
         (r is Ok && node_children(&input).len() > 0) ==> expected_return(&input) is Some && r->Ok_0.0 is Some
             && type_of(&r->Ok_0.0->Some_0, the_class(&input)) is Some
             && (ret_fits(expected_return(&input)->Some_0, resolved(type_of(&r->Ok_0.0->Some_0, the_class(&input))->Some_0), &input, false)
-                || ret_fits(expected_return(&input)->Some_0, resolved(type_of(&r->Ok_0.0->Some_0, the_class(&input))->Some_0), &input, true)),
+                || ret_fits(expected_return(&input)->Some_0, resolved(type_of(&r->Ok_0.0->Some_0, the_class(&input))->Some_0), &input, true))
+            // ... and a value that may be nil is never accepted where the declared type does not admit nil (`return x`, x: int?, from `-> int`: D40)
+            && !(may_be_nil(resolved(type_of(&r->Ok_0.0->Some_0, the_class(&input))->Some_0)) && !may_be_nil(expected_return(&input)->Some_0)),
 {{
 {render(b, 1)}
 }}
 
-//@ OBL C03.return.strict
-// the same function: a returned value fits the declared type WITHOUT an optional standing for its payload (`return x` with x: int? from `-> int`
-// may return nil) -- fails while finding D40 is open
-pub fn return_statement_strict(input: Node, ud: &mut UD) -> (r: Result<ReturnStatement, VErr>)
-    ensures
-        (r is Ok && node_children(&input).len() > 0) ==> expected_return(&input) is Some && r->Ok_0.0 is Some
-            && type_of(&r->Ok_0.0->Some_0, the_class(&input)) is Some
-            && ret_fits(expected_return(&input)->Some_0, resolved(type_of(&r->Ok_0.0->Some_0, the_class(&input))->Some_0), &input, false),
-{{
-{render(b, 1)}
-}}
 }} // verus!
 fn main() {{}}
 """
-    return gen, [Obl("C03.return.strict", ["C03", "C02"], fn="Parser::return_statement", desc="Parser::return_statement: an accepted value fits the declared return type without optional-unwrapping (known finding D40 while it fails)"), Obl("C03.return.table", ["C03", "C02"], fn="Parser::return_statement", desc="Parser::return_statement: the wants/gets table (blank return in a typed function, value in a void function, mismatching type are diagnostics); every return marks the innermost scope")], log
+    return gen, [Obl("C03.return.table", ["C03", "C02"], fn="Parser::return_statement", desc="Parser::return_statement: the wants/gets table (blank return in a typed function, value in a void function, mismatching type are diagnostics); every return marks the innermost scope")], log
 
 
 UNITS = [VUnit("c03_return", ["C03", "C02"], "return: wants / gets table and scope marking", build)]
